@@ -70,4 +70,10 @@ PROPS = {
         "need_tags": ["selparse/exh", "selparse/corpus", "selparse/rnd", "polipld/rnd", "polipld/corpus", "pol/ipld-rt"],
         "trusted": ["\\p{L} in field names and Go regexp semantics are modelled on ASCII only; generators keep unquoted field names ASCII"],
     },
+    "C16": {
+        "engines": ["did"],
+        "rule": "keys of all six algorithms (Ed25519, secp256k1, P-256, P-384, P-521, RSA-2048) from a seeded byte stream: key -> DID -> text -> DID -> key, DID equality vs key equality for pairs; alternative encodings of each key's material (uncompressed / hybrid / flipped-parity / truncated / padded / off-curve / wrong-curve points, 0xff..ff, trailing or truncated or non-minimal DER, PKIX instead of PKCS#1, small RSA, wrong lengths, X25519 code, non-minimal varint); text variants (other multibases, case, whitespace, characters outside the alphabet, leading '1's); seeded random mutations of valid identifiers; random material under every code. The key-library facts used by the model (does the material denote a key; its canonical material) are computed by the harness directly with the third-party libraries",
+        "need_tags": ["did/key-ed25519", "did/key-secp256k1", "did/key-p256", "did/key-p384", "did/key-p521", "did/key-rsa", "did/eq", "did/valid", "did/alt-secp-uncompressed", "did/alt-ecdsa-ff", "did/text", "did/mutated", "did/random-material"],
+        "trusted": ["premises of the key-level theorems: every key (un)marshaller of libp2p / x509 / elliptic / secp256k1 round-trips the keys it produces and returns a key or an error (exercised on every run, not proved)", "tables in Generated.v are probed from the running code by bin/gen-tables (every multicodec code below 2^14)"],
+    },
 }
